@@ -872,3 +872,15 @@ Proof.
   assert (E : existsb (String.eqb x) r = true) by (apply existsb_exists; exists x; split; [exact I|apply String.eqb_refl]).
   rewrite E in H1. discriminate H1.
 Qed.
+
+Lemma carried_strip p : carried_names (strip_markers p) = carried_names p.
+Proof.
+  induction p as [| | | | |l IH|kv IH] using json_ind'; try reflexivity.
+  - rewrite strip_arr. unfold carried_names. rewrite !carried_names_m_arr, map_map. f_equal.
+    induction IH as [|x r Hx Hr IHr]; [reflexivity|]. cbn [map]. unfold carried_names in Hx. now rewrite Hx, IHr.
+  - rewrite strip_obj. unfold carried_names. rewrite !carried_names_m_obj. cbv zeta. unfold type_is, name_attr.
+    rewrite !jget_jdrop_out by reflexivity. reflexivity.
+Qed.
+
+Lemma same_strip_same_names q pw : strip_markers q = strip_markers pw -> carried_names q = carried_names pw.
+Proof. intros E. now rewrite <- (carried_strip q), E, carried_strip. Qed.
